@@ -6,6 +6,7 @@ import (
 	"os"
 
 	"github.com/ontio/ontology-crypto/keypair"
+	s "github.com/ontio/ontology-crypto/signature"
 	"github.com/polynetwork/poly/account"
 	"github.com/polynetwork/poly/common"
 	"github.com/polynetwork/poly/common/config"
@@ -50,8 +51,9 @@ func getEnv() *env {
 	}
 	getEnvQuiet()
 	e := &env{}
-	for i := 0; i < nValidators; i++ {
-		e.accs = append(e.accs, account.NewAccount(""))
+	for i := 0; i < nValidators; i++ { // the deterministic validator keys of world.go, so that replay files stay valid
+		k := valKeys[i]
+		e.accs = append(e.accs, &account.Account{PrivateKey: k.priv, PublicKey: k.pub, Address: k.addr, SigScheme: s.SHA256withECDSA})
 	}
 	for i := 0; i < 6; i++ {
 		e.extra = append(e.extra, account.NewAccount(""))
